@@ -16,14 +16,16 @@ PROP = dict(
         "result trees up to depth 4 (quick 3), tuples <= 5 attributes, arrays <= 4 items with holes strictly inside and "
         "offsets in {-3..17}, dictionaries <= 9 keys (numbers, strings, tuples) with up to 3 values under one key "
         "(unions of dict literals / sets of (@, @value) tuples; values under one key are of different classes); "
-        "layouts up to 4 directory levels",
+        "layouts up to 4 directory levels; file and directory names from pools probing the discovery rule (.x, _x, "
+        "testdata, vendor, node_modules, names with spaces/dashes/dots/non-ASCII letters, upper-case suffix, .bak/~ "
+        "suffixes, hidden files, a directory named _test.arrai; targets: root, sub-directory, file, hidden, missing)",
         "display-only parts of the report (alignment, colours, wall time, messages) are not modelled",
         "attribute names that are empty or start with '.' are outside the path-rendering theorem (known finding "
         "KF-c20-dotted-attr-name); the verdict/count theorems hold for them too",
         "unparseable test files are generated only with sources whose parse error is cheap to format (a syntax error at "
         "end of input makes wbnf's ParseError.Error take ~30 s; out of scope here)",
     ],
-    level_text="Proof: 22 Lean theorems about a transliteration of pkg/test (ForeachLeaf as repaired, isLiteralTrue/False, RunExpr, "
+    level_text="Proof: 25 Lean theorems about a transliteration of pkg/test (ForeachLeaf as repaired, isLiteralTrue/False, RunExpr, "
                "runFile, getTestFiles' walk, the loop of RunTests, calcStats, Report's verdict) - for every result tree (any nesting "
                "of tuples/arrays/dicts, sparse and offset arrays, sets/relations as leaves) ForeachLeaf reports exactly the specified "
                "leaves, each once under its rendered path (every (key, value) pair of a dictionary with repeated keys is a member: the multiset of reported (name, leaf) pairs is the specified one); for every directory layout the walk finds exactly the *_test.arrai files "
